@@ -53,7 +53,37 @@ func c09Inputs() (map[string]interface{}, []ucfg.Option) {
 	x := verif.Uint64("x")
 	y := verif.Uint64("y")
 	sep := []ucfg.Option{ucfg.PathSep(".")}
-	switch verif.Choice("input", 9) {
+	switch verif.Choice("input", 10) {
+	case 9:
+		// one object spelled up to three times (nested, "a.b", "a.b.x"), every spelling one of
+		// several shapes: more than one conflict, of different kinds, may sit below the same object
+		shapes := func(name string) interface{} {
+			switch verif.Choice(name+".shape", 6) {
+			case 0:
+				return nil
+			case 1:
+				return x
+			case 2:
+				return map[string]interface{}{"x": x}
+			case 3:
+				return map[string]interface{}{"y": map[string]interface{}{"q": y}}
+			case 4:
+				return map[string]interface{}{"x": x, "y": y}
+			default:
+				return map[string]interface{}{"x": y, "y": map[string]interface{}{"q": x}}
+			}
+		}
+		in := map[string]interface{}{}
+		if v := shapes("a"); v != nil {
+			in["a"] = map[string]interface{}{"b": v}
+		}
+		if v := shapes("a.b"); v != nil {
+			in["a.b"] = v
+		}
+		if v := shapes("a.b.x"); v != nil {
+			in["a.b.x"] = v
+		}
+		return in, sep
 	case 0:
 		return map[string]interface{}{"a": map[string]interface{}{"b": x}, "a.b": y}, sep
 	case 1:
@@ -135,7 +165,9 @@ func H_C09_unpack() {
 	g := refGraph{}
 	g["a"] = genRefExpr("a", targets, "va")
 	g["b"] = genRefExpr("b", targets, "vb")
-	g["c"] = refExpr{form: 0, lit: "vc"}
+	if verif.Choice("third setting", 2) == 1 { // dictionaries of two and of three settings
+		g["c"] = refExpr{form: 0, lit: "vc"}
+	}
 	opts := []ucfg.Option{ucfg.VarExp, ucfg.PathSep(".")}
 	in := map[string]interface{}{}
 	for k, e := range g {
@@ -160,4 +192,101 @@ func H_C09_unpack() {
 	verif.PermuteMaps(false)
 	verif.Reach("compared with canonical order")
 	verif.Assert(canon.same(perm), "C09/Unpack outcome independent of map order")
+}
+
+// H_C09_merge_refs: merging into / from configs whose settings reference each other
+// (dictionaries of exactly two settings included).
+func H_C09_merge_refs() {
+	opts := []ucfg.Option{ucfg.VarExp, ucfg.PathSep(".")}
+	x := verif.Uint64("x")
+	side := func(name string) map[string]interface{} {
+		m := map[string]interface{}{}
+		for _, k := range []string{"a", "b"} {
+			switch verif.Choice(name+"."+k, 5) {
+			case 0:
+			case 1:
+				m[k] = x
+			case 2:
+				m[k] = map[string]interface{}{name + k: x}
+			case 3:
+				m[k] = "${" + map[string]string{"a": "b", "b": "a"}[k] + "}"
+			case 4:
+				m[k] = "${nobody}"
+			}
+		}
+		return m
+	}
+	dstIn, srcIn := side("d"), side("s")
+	run := func() outcome {
+		c, err := ucfg.NewFrom(dstIn, opts...)
+		if err != nil {
+			return outcomeOf(nil, err)
+		}
+		if err := c.Merge(srcIn, opts...); err != nil {
+			return outcomeOf(nil, err)
+		}
+		var m map[string]interface{}
+		err = c.Unpack(&m, opts...)
+		return outcomeOf(m, err)
+	}
+	canon := run()
+	verif.PermuteMaps(true)
+	perm := run()
+	verif.PermuteMaps(false)
+	verif.Reach("compared with canonical order")
+	verif.Assert(canon.same(perm), "C09/Merge of configs with references: outcome independent of map order")
+}
+
+type c09Inner struct {
+	X int `config:"x" validate:"nonzero"`
+	Y int `config:"y" validate:"positive"`
+}
+
+type c09Prefilled struct {
+	M map[string]c09Inner  `config:"m"`
+	P map[string]*c09Inner `config:"p"`
+	Z int                  `config:"z"`
+}
+
+// H_C09_prefilled: a target whose pre-filled maps hold more than one invalid entry
+// (entries the configuration does not mention are validated like every other default).
+func H_C09_prefilled() {
+	x0, y0 := int(verif.Int8("p.x")), int(verif.Int8("p.y"))
+	x1, y1 := int(verif.Int8("q.x")), int(verif.Int8("q.y"))
+	in := map[string]interface{}{"z": 1}
+	switch verif.Choice("mention", 3) {
+	case 1:
+		in["m"] = map[string]interface{}{"other": map[string]interface{}{"x": 1, "y": 1}}
+	case 2:
+		in["p"] = map[string]interface{}{"other": map[string]interface{}{"x": 1, "y": 1}}
+	}
+	c, err := ucfg.NewFrom(in)
+	verif.Assume(err == nil)
+	run := func() outcome {
+		t := c09Prefilled{
+			M: map[string]c09Inner{"p": {X: x0, Y: y0}, "q": {X: x1, Y: y1}},
+			P: map[string]*c09Inner{"p": {X: x0, Y: y0}, "q": {X: x1, Y: y1}},
+		}
+		err := c.Unpack(&t)
+		return outcomeOf(nil, err)
+	}
+	canon := run()
+	verif.PermuteMaps(true)
+	perm := run()
+	verif.PermuteMaps(false)
+	verif.Reach("compared with canonical order")
+	verif.Assert(canon.same(perm), "C09/Unpack into a pre-filled map: outcome independent of map order")
+}
+
+// innermostReason: the kind of a ucfg error (an Error may wrap another Error).
+func innermostReason(e ucfg.Error) error {
+	r := e.Reason()
+	for i := 0; i < 8; i++ {
+		inner, ok := r.(ucfg.Error)
+		if !ok {
+			break
+		}
+		r = inner.Reason()
+	}
+	return r
 }
